@@ -212,6 +212,8 @@ var c10Ops = []struct {
 	{"s.invert", 2}, {"s.pow", 2}, {"s.setu64", 2}, {"s.decode", 3}, {"s.roundtrip", 2}, {"s.h2s", 1}, {"s.cselect", 3}, {"s.random", 1},
 }
 
+var c10Targets = gen.DecodeTargets()
+
 func c10GenHistory(r *gen.Rng, pool *gen.Pool, steps int) *c10Case {
 	cs := &c10Case{}
 
@@ -293,7 +295,15 @@ func c10GenHistory(r *gen.Rng, pool *gen.Pool, steps int) *c10Case {
 				b = oracle.EncC(src)
 			}
 
-			if r.Intn(10) == 0 {
+			if r.Intn(12) == 0 {
+				// a genuine point whose y^2 resp. x^3 has a structured stored value: must be accepted
+				if sp, ok := gen.PointWithStoredY2(c10Targets[r.Intn(len(c10Targets))]); ok {
+					b = oracle.EncC(sp)
+					if op == "e.decodeU" || r.Bool() && op != "e.decodeC" {
+						b = oracle.EncU(sp)
+					}
+				}
+			} else if r.Intn(10) == 0 {
 				// non-canonical alias of a real point: x+p (small-x points) or y+p (small-y points)
 				if r.Bool() {
 					sp := pool.SmallX[r.Intn(len(pool.SmallX))].P
